@@ -2,7 +2,9 @@
 """Prints the prompt given to a mutation sub-agent for one property (only the property text and a scratch worktree)."""
 import json, sys
 pid = sys.argv[1]
-wt = "/tmp/mut_" + pid
+rnd = int(sys.argv[2]) if len(sys.argv) > 2 else 1
+wt = "/tmp/mut%s_%s" % ("" if rnd == 1 else str(rnd), pid)
+A, B = "m%d" % (2 * rnd - 1), "m%d" % (2 * rnd)
 props = {json.loads(l)["id"]: json.loads(l) for l in open("/verif/properties.jsonl")}
 p = props[pid]
 print(f"""You are helping to evaluate a test/verification effort for ChaiScript (header-only embedded scripting language for C++).
@@ -14,7 +16,7 @@ PROPERTY {pid}: {p['title']}
 Statement: {p['statement']}
 Quantified over: {p['quantifier']['text']}
 
-What I need from you, for each of the two mutations (call them m1 and m2):
+What I need from you, for each of the two mutations (call them {A} and {B}):
   1. A source change under {wt}/include/chaiscript/ (the library is header-only) that makes the property FALSE for some inputs.
      - It must look like a plausible programming mistake or "optimisation" a maintainer could make (off-by-one, dropped check, wrong
        branch, stale cache, missing cleanup on an error path, two sites that each look fine alone ...), NOT a blatant sabotage.
@@ -23,7 +25,7 @@ What I need from you, for each of the two mutations (call them m1 and m2):
        must still pass with it, so it cannot break behaviour the tests exercise.
      - Never edit code inside `#ifdef CHAISCRIPT_VERIF` blocks (those are instrumentation hooks, keep them intact), and do not
        edit the tests.
-     - m1 and m2 must have different root causes / sit in different functions, and each must apply on its own to the clean tree.
+     - {A} and {B} must have different root causes / sit in different functions, and each must apply on its own to the clean tree.
   2. A small demonstration: a C++ program (or a .chai script run through the built `chai` interpreter) that FAILS (wrong output,
      wrong exception, crash, sanitizer report...) with the mutation and PASSES on the clean tree. State exactly how to build/run it.
   3. Proof that the existing test suite still passes with the mutation applied.
@@ -39,12 +41,12 @@ How to build and test (takes ~3 minutes per full build on this machine; please d
   There is no network access. Work only with what is installed.
 
 Deliverables -- write these files (create the directory {wt}/mutants/):
-    {wt}/mutants/m1.diff      `git diff` of mutation 1 against the clean tree (must apply with `git apply` on the clean HEAD)
-    {wt}/mutants/m1_demo.*    the demonstration (source/script) for m1
-    {wt}/mutants/m1.md        short notes: what was changed and why it breaks the property; what it needs in order to manifest;
+    {wt}/mutants/{A}.diff      `git diff` of mutation 1 against the clean tree (must apply with `git apply` on the clean HEAD)
+    {wt}/mutants/{A}_demo.*    the demonstration (source/script) for {A}
+    {wt}/mutants/{A}.md        short notes: what was changed and why it breaks the property; what it needs in order to manifest;
                               exact commands you ran for the demo on clean and mutated tree with their observed output; the ctest
                               summary line with the mutation applied
-    {wt}/mutants/m2.diff, m2_demo.*, m2.md   likewise for mutation 2
+    {wt}/mutants/{B}.diff, {B}_demo.*, {B}.md   likewise for mutation 2
   Produce each diff with `git -C {wt} diff -- include > mutants/mN.diff`, then `git -C {wt} checkout -- include` before starting
   the next one, so that the worktree's tracked files are clean at the end (only the untracked mutants/ and _build/ remain).
   Do not commit anything.
